@@ -285,6 +285,12 @@ def b_whoami(tok, ctx):
     return [tok, mark if isinstance(mark, str) else None]
 
 
+def b_nest(tok):
+    """Body of ``nest``: the method calls the very dispatcher that is serving it with a request of its own (an unknown
+    method, id "inner") and reports the error code it was answered with."""
+    return ['nested', -32601]
+
+
 def b_status(tok):
     """Published as ``_status``: a JSON-RPC method name may be any string, also one that looks private in Python."""
     return ['status', tok]
@@ -317,7 +323,7 @@ BODIES: Dict[str, Callable[..., Any]] = {
     'fail_proto': b_fail_proto, 'fail_exc': b_fail_exc, 'slow': b_slow, 'op_ab': b_op_ab, 'op_ba': b_op_ba, 'typed': b_typed,
     'typed_default': b_typed_default, 'vecho': b_vecho, 'vstatic': b_vstatic, 'fail_typed': b_fail_typed, 'mixed_keys': b_mixed_keys,
     'single': b_single, 'explode': b_explode, 'kwonly': b_kwonly, 'whoami': b_whoami,
-    '_status': b_status,
+    '_status': b_status, 'nest': b_nest,
 }
 SIGNATURES: Dict[str, inspect.Signature] = {name: inspect.signature(fn) for name, fn in BODIES.items()}
 
@@ -367,6 +373,7 @@ class Service:
         self.flavour = flavour
         self.node = node
         self.generation = generation     # which deployment of the functions this is (they can be registered again)
+        self.dispatcher: Any = None      # set by the scenario: the dispatcher serving these methods (for re-entrancy)
         self.methods: Dict[str, Callable[..., Any]] = {}
         self.is_coro: Dict[str, bool] = {}
         for i, (name, body) in enumerate(sorted(BODIES.items())):
@@ -374,6 +381,8 @@ class Service:
                 continue
             coro = flavour == 'async' or (flavour == 'mixed' and i % 2 == 0)
             self.methods[name] = self._wrap_async(name, body) if coro else self._wrap_sync(name, body)
+            if name == 'nest':
+                self.methods[name] = self._wrap_nest(coro)
             if coro and name in DEFERRED:
                 # not a coroutine function, but it returns a coroutine: an async method behind an ordinary decorator
                 self.methods[name] = self._defer(name, body, self.methods[name])
@@ -449,6 +458,44 @@ class Service:
             return value
 
         return method
+
+    def _wrap_nest(self, coro: bool) -> Callable[..., Any]:
+        """``nest(tok)``: re-enters the dispatcher that is serving it (where the kinds of dispatcher and method allow)."""
+        world, node, service = self.world, self.node, self
+
+        def inner_text(tok: Any) -> str:
+            return json.dumps({'jsonrpc': '2.0', 'method': 'nosuch_inner', 'params': [f'{tok}_in'], 'id': 'inner'})
+
+        def code_of(reply: Any) -> Any:
+            doc = json.loads(reply[0])
+            return doc['error']['code'] if doc.get('id') == 'inner' else ['answered under id', doc.get('id')]
+
+        if coro:
+            async def nest(tok):  # type: ignore[no-untyped-def]
+                world.rec(node, 'method.enter', method='nest', tok=tok, args={}, gen=service.generation)
+                code: Any = -32601
+                d = service.dispatcher
+                if d is not None and isinstance(tok, str):
+                    for k, pause in enumerate(world.plan.get(('method', tok), ())):
+                        await asyncio.sleep(pause)
+                    reply = d.dispatch(inner_text(tok), None)
+                    if inspect.isawaitable(reply):
+                        reply = await reply
+                    code = code_of(reply)
+                    world.probe('method_reentered_dispatcher')
+                world.rec(node, 'method.exit', method='nest', tok=tok, outcome='return')
+                return ['nested', code]
+        else:
+            def nest(tok):  # type: ignore[no-untyped-def,misc]
+                world.rec(node, 'method.enter', method='nest', tok=tok, args={}, gen=service.generation)
+                code: Any = -32601
+                d = service.dispatcher
+                if d is not None and isinstance(tok, str) and not asyncio.iscoroutinefunction(d.dispatch):
+                    code = code_of(d.dispatch(inner_text(tok), None))
+                    world.probe('method_reentered_dispatcher')
+                world.rec(node, 'method.exit', method='nest', tok=tok, outcome='return')
+                return ['nested', code]
+        return nest
 
     @staticmethod
     def _defer(name: str, body: Callable[..., Any], inner: Callable[..., Any]) -> Callable[..., Any]:
